@@ -295,6 +295,10 @@ struct OpSlot {
     frees: u32,
     dropped_running: bool,
     started_after_rdrop: bool,
+    /// a final EINTR/ECANCELED completion was posted while the future was alive
+    restart_seen: bool,
+    /// a final completion that is not a restart was posted
+    final_nonrestart: bool,
 }
 
 struct LifeCase {
@@ -685,6 +689,11 @@ impl LifeCase {
         }
         if op.multi {
             let restart = fin && (res == -libc::EINTR || res == -libc::ECANCELED);
+            if restart && op.obj.is_some() {
+                op.restart_seen = true;
+            } else if fin {
+                op.final_nonrestart = true;
+            }
             if !restart {
                 op.expected.push_back(res as i64);
             }
@@ -696,6 +705,11 @@ impl LifeCase {
             if fin {
                 let v = op.slot.unwrap_or(0);
                 let restart = v == -(libc::EINTR as i64) || v == -(libc::ECANCELED as i64);
+                if restart && op.obj.is_some() {
+                    op.restart_seen = true;
+                } else {
+                    op.final_nonrestart = true;
+                }
                 if !restart {
                     op.expected.push_back(v);
                 }
@@ -857,6 +871,8 @@ impl Case for LifeCase {
                     frees: 0,
                     dropped_running: false,
                     started_after_rdrop: false,
+                    restart_seen: false,
+                    final_nonrestart: false,
                 });
                 out.push("ok".into());
             }
@@ -872,7 +888,18 @@ impl Case for LifeCase {
                 let r = util::catch(|| obj.poll(&mut cx));
                 self.ops[i].obj = Some(obj);
                 match r {
-                    Err(_) => out.push("panic".into()),
+                    Err(_) => {
+                        out.push("panic".into());
+                        // A poll may only panic when the operation had already resolved
+                        // ("polled after completion"): otherwise the caller lost its result.
+                        let (fin, kind, rs) = (self.ops[i].finished, self.ops[i].kind.clone(), self.ops[i].restart_seen);
+                        if !fin {
+                            self.fail("C02", &format!("C02/poll-panicked/{kind}"), format!("polling op{i} panicked although it had not resolved yet: its results are lost"));
+                            if rs {
+                                self.fail("C09", &format!("C09/poll-panicked-after-interruption/{kind}"), format!("polling op{i} panicked after the kernel reported it interrupted/cancelled: the restart was not transparent"));
+                            }
+                        }
+                    }
                     Ok(None) => {
                         out.push("pending".into());
                         let o = &mut self.ops[i];
@@ -891,10 +918,16 @@ impl Case for LifeCase {
                         o.ready_since = false;
                         let mut bad: Option<String> = None;
                         let mut interrupted: Option<i64> = None;
+                        let mut ended_on_restart = false;
                         if line == "ready none" {
                             o.finished = true;
                             if !o.expected.is_empty() {
                                 bad = Some(format!("op{i} ended with {} results undelivered", o.expected.len()));
+                            } else if !o.final_nonrestart {
+                                bad = Some(format!("op{i} (multishot) ended although the kernel never posted a final result for it"));
+                                if o.restart_seen {
+                                    ended_on_restart = true;
+                                }
                             }
                         } else {
                             let got: i64 = if let Some(v) = line.strip_prefix("ready ok ") {
@@ -919,6 +952,9 @@ impl Case for LifeCase {
                         let kind = o.kind.clone();
                         if let Some(b) = bad {
                             self.fail("C02", &format!("C02/wrong-result/{kind}"), b);
+                        }
+                        if ended_on_restart {
+                            self.fail("C09", &format!("C09/ended-instead-of-reissued/{kind}"), format!("op{i} ended its stream after an EINTR/ECANCELED completion instead of being re-issued"));
                         }
                         if let Some(v) = interrupted {
                             // C09 oracle: the caller never observes the interruption itself
